@@ -16,6 +16,7 @@ CONSTANTS MaxP, MaxQ, MaxK,   \* box: p in 0..MaxP, q in 0..MaxQ, k in 0..MaxK
           Variants,           \* set of variants [fam, F, G, E, le, canon, n]
           NaiveMaxP,          \* blocks with p <= NaiveMaxP of the variants in NaiveVariants are also computed by filtering the whole block
           NaiveVariants,
+          AccMaxP,            \* accepting sets are printed for the blocks p <= AccMaxP (the box the harness enumerates)
           NbrMaxP, NbrVariants, \* well-formed sets with p <= NbrMaxP of these variants get their neighbourhoods explored
           Mode,               \* "acc": blocks only;  "nbr": + neighbourhoods;  "needs": oracle strings only;  "elem": member sets
           CheckArith,         \* evaluate the arithmetic agreement theorem at start-up (once per run is enough)
@@ -75,6 +76,12 @@ NbrAcc(w, t, f) == {x \in FieldRange(w, t, f) : WFv(w, [t EXCEPT ![f] = x])}
 \* classes with a CheckElement(): all test a^q = 1 (mod p), 0 < a < p; the QR class tests the Jacobi symbol
 ElemClasses == {"dlog", "eotp", "vrhe", "pubrotzk", "pvss", "gjkr_dkg", "cg_rvss", "cg_zvss", "cg_dkg", "cg_dss", "jl_rvss"}
 
+\* a candidate is passed over only when it is 0, 1 or p-1 (W^k has order 1 or q otherwise): the strings that can follow u
+RECURSIVE Continuations(_, _, _)
+Continuations(u, p, depth) ==
+  IF depth = 0 THEN {u}
+  ELSE {u} \cup UNION {Continuations(u \o B62(c) \o "|", p, depth - 1) : c \in {0, 1, p - 1}}
+
 \* oracle strings still missing for the canonical generators of this block
 NeedsOf(w, p) ==
   IF ~(w.fam \in {"dlog", "pqgh"} /\ w.canon) THEN {}
@@ -120,12 +127,14 @@ Elements == (stage = "valid") =>
 
 (* output for the harness                                                   *)
 Emit ==
-  /\ (stage = "block" /\ Mode \in {"acc", "nbr"}) =>
+  /\ (stage = "block" /\ Mode \in {"acc", "nbr"} /\ ps[1] <= AccMaxP) =>
         PrintT(ToJson([kind |-> "acc", v |-> v, classes |-> ClassesOf(v), p |-> ps[1],
                        box |-> [maxq |-> MaxQ, maxk |-> MaxK, margin |-> Margin],
                        acc |-> AccBlock(v, ps[1])]))
-  /\ (stage = "block" /\ Mode = "needs") =>
+  /\ (stage = "block" /\ Mode \in {"acc", "nbr"}) =>
         \A c \in NeedsOf(v, ps[1]) : PrintT(ToJson([kind |-> "need", u |-> c.u, m |-> c.m, st |-> c.st]))
+  /\ (stage = "block" /\ Mode = "needs") =>
+        \A c \in NeedsOf(v, ps[1]) : \A u \in Continuations(c.u, c.m, 2) : PrintT(ToJson([kind |-> "need", u |-> u, m |-> c.m, st |-> c.st]))
   /\ (stage = "block" /\ Mode = "elem" /\ ps[1] >= 1) =>
         /\ \A q \in 0..MaxQ :
               PrintT(ToJson([kind |-> "elem", classes |-> ElemClasses, p |-> ps[1], q |-> q, lo |-> 0 - Margin, hi |-> ps[1] + Margin,
